@@ -39,6 +39,9 @@ reachable from two different owners (classes / instances) is reported.
 
 Oracle calibration
   * Only differences between "among others" and "alone" are reported; whether the alone behaviour is right is C03/C06/C10.
+  * A subclass's accessible referring to a datatype object of the same accessible of its base class (Command.merge hands on the
+    inherited argument / result object without copying it) is counted as a latent hazard, not reported: only an observable
+    change of the base class is a violation (it shows in the differential observation).
   * A class and its subclass legitimately share the *same* Accessible object for an accessible the subclass does not
     override (plain Python inheritance of the class attribute).  Objects reached through the very same Accessible
     object from two classes are therefore not reported by the identity walk; sharing between an instance and
@@ -248,6 +251,78 @@ FAMILIES = {
         },
         'quick_mutations': ['fmax', 'pimax'],
     },
+    # commands with struct arguments (mandatory and optional members) overridden by decorated methods with other defaulted
+    # keyword parameters (argument inherited / given anew), by plain methods and by **kwds methods
+    'cmds': {
+        'prelude': [],
+        'classes': {
+            'K': {'bases': ['Module'], 'body': {
+                'f': ['P', {'description': 'f', 'datatype': F10, 'readonly': False, 'default': 1}],
+                'cs': ['C', {'argument': ['struct', {'a': ['int', 0, 5], 'b': ['string', {'maxchars': 3}]}, None],
+                             'result': None, 'description': 'cs'}, 'kw:a,b?'],
+                'cm': ['C', {'argument': ['struct', {'x': ['double', {'min': 0, 'max': 5}], 'y': ['double', {'min': 0, 'max': 10}]}, None],
+                             'result': ['double', {}], 'description': 'cm'}, 'kw:x,y'],
+            }},
+            'K1': {'bases': ['K'], 'body': {'cs': ['C', {}, 'kw:a?,b?'], 'cm': ['C', {}, 'kw:x,y?']}},
+            'K2': {'bases': ['K'], 'body': {'cs': ['M', 'kw:a,b'], 'cm': ['M', 'kw:x?,y?']}},
+            'K3': {'bases': ['K'], 'body': {'cs': ['C', {'group': 'g'}, 'kwargs'], 'cm': ['C', {'visibility': 'expert'}, 'kw:x,y']}},
+            'K4': {'bases': ['K'], 'body': {
+                'cm': ['C', {'argument': ['struct', {'x': ['double', {'min': 0, 'max': 2}], 'y': ['double', {'min': 0, 'max': 10}]}, None]},
+                       'kw:y,x?'],
+            }},
+            'K5': {'bases': ['K1'], 'body': {'cs': ['C', {}, 'kw:a,b'], 'cm': ['M', 'kw:x,y']}},
+        },
+        'instantiable': ['K', 'K1', 'K2', 'K3', 'K4', 'K5'],
+        'configs': [
+            {},
+            {'cs': {'visibility': 'advanced'}, 'f': {'value': 2}},
+        ],
+        'quick_configs': [0, 1],
+        'mutations': {
+            'csarg': {'needs': ['cs'], 'op': ['cmdarg', 'cs', ['a'], 'max', 2]},
+            'cmarg': {'needs': ['cm'], 'op': ['cmdarg', 'cm', ['y'], 'max', 3.0]},
+            'csopt': {'needs': ['cs'], 'op': ['cmdopt', 'cs', ['a', 'b']]},
+        },
+        'quick_mutations': ['csarg', 'cmarg', 'csopt'],
+    },
+    # control loops: every controller (HasOutputModule) is created together with an output module (HasControlledBy) of its own;
+    # taking control / setting the output manually on one loop must not be noticed by the other loops
+    'loops': {
+        'prelude': ['Heater', 'Loop'],
+        'classes': {
+            'Heater': {'bases': ['HasControlledBy', 'Writable'], 'body': {
+                'value': ['P', {'datatype': ['double', {'min': 0, 'max': 100, 'unit': 'W'}], 'default': 0}],
+                'target': ['P', {'datatype': ['double', {'min': 0, 'max': 100, 'unit': 'W'}], 'default': 0}],
+                'write_target': ['M', 'wout'],
+            }},
+            'Loop': {'bases': ['HasOutputModule', 'Writable'], 'body': {
+                'value': ['P', {'datatype': ['double', {'min': 0, 'unit': 'K'}], 'default': 0}],
+                'target': ['P', {'datatype': ['double', {'min': 0, 'unit': 'K'}], 'default': 0}],
+                'write_target': ['M', 'wloop'],
+            }},
+            'LoopB': {'bases': ['Loop'], 'body': {'target': ['P', {'max': 500}], 'control_active': ['V', False]}},
+            'HeaterB': {'bases': ['Heater'], 'body': {'target': ['P', {'max': 50}]}},
+        },
+        'instantiable': ['Loop', 'LoopB', 'Heater', 'HeaterB'],
+        # '+output': the instance is created together with an output module <name>_out of that class / configuration
+        'configs': [
+            {'+output': {'cls': 'Heater', 'cfg': {}}},
+            {'+output': {'cls': 'Heater', 'cfg': {'target': {'max': 80}}}, 'target': {'max': 300}},
+            {'+output': {'cls': 'HeaterB', 'cfg': {}}},
+            {},
+            {'target': {'max': 40}},
+        ],
+        'configs_for': {'Loop': [0, 1, 2], 'LoopB': [0, 1, 2], 'Heater': [3, 4], 'HeaterB': [3, 4]},
+        'quick_configs': [0, 1, 3],
+        'mutations': {
+            'take': {'needs': ['control_active'], 'op': ['call', '', 'write_target', 20.0]},
+            'manual': {'needs': ['control_active'], 'op': ['call', '_out', 'write_target', 10.0]},
+            'set': {'needs': ['controlled_by'], 'op': ['call', '', 'write_target', 5.0]},
+            'reg': {'needs': ['controlled_by'], 'op': ['register', 'ctl']},
+            'tmax': {'needs': ['target'], 'op': ['setprop', 'target', [], 'max', 30]},
+        },
+        'quick_mutations': ['take', 'manual', 'set', 'reg'],
+    },
     # main unit, status enum extension, Limit parameters (check_ functions are attached to the defining class)
     'units': {
         'prelude': [],
@@ -299,6 +374,7 @@ PROBES = [None, True, 0, 1, 2, 3, 4, 5, 7, 9, 10, 11, 20, 21, 45, 100, 350, -1, 
 CHANGE_PROBES = [0, 1, 3, 4.5, 8.5, 11, 35, 'b', 'z', 'ctl', ['abc'], ['a', 'b', 'c'], {'x': 1}, {'x': 2.5, 'y': 'ab'}, [1, True]]
 
 
+DO_PROBES = CHANGE_PROBES[:6] + [{'a': 1}, {'a': 3, 'b': 'ab'}, {'b': 'x'}, {'x': 1}, {'x': 1, 'y': 2}, {'y': 2}, None]
 MAX_INSTANCES = 3
 
 
@@ -416,7 +492,7 @@ class World:
     def new(self, cid, cfgid):
         self.transitions += 1
         name = f'inst{len(self.insts)}'
-        inst = {'name': name, 'cid': cid, 'cfgid': cfgid, 'muts': [], 'obj': None, 'refused': None, 'mutout': []}
+        inst = {'name': name, 'cid': cid, 'cfgid': cfgid, 'muts': [], 'obj': None, 'refused': None, 'mutout': [], 'companions': {}}
         self.insts.append(inst)
         cls = self.env.get(cid)
         if cls is None:
@@ -425,6 +501,14 @@ class World:
         cfg = dict(self.config_object(cfgid))
         cfg['cls'] = cls
         cfg.setdefault('description', 'generated')
+        out = cfg.pop('+output', None)
+        if out is not None:
+            # the instance comes with an output module of its own (created by the server when the instance asks for it)
+            oname = name + '_out'
+            ocfg = {k: (dict(v) if isinstance(v, dict) else v) for k, v in out['cfg'].items()}
+            ocfg.update(cls=self.env.get(out['cls']), description='generated output')
+            self.node.module_cfg[oname] = ocfg
+            cfg['output_module'] = oname
         self.node.module_cfg[name] = cfg
         sec = self.node.secnode
         nerr = len(sec.errors)
@@ -440,13 +524,15 @@ class World:
                 inst['obj'] = obj
         else:
             inst['obj'] = obj
+        if out is not None and sec.modules.get(name + '_out') is not None:
+            inst['companions']['_out'] = sec.modules[name + '_out']
 
     def config_object(self, cfgid):
         from frappy.config import Param
         if cfgid not in self.cfgobjs:
             obj = {}
             for key, val in copy.deepcopy(self.fam['configs'][cfgid]).items():
-                if isinstance(val, dict):
+                if isinstance(val, dict) and not key.startswith('+'):
                     val = Param(val.pop('value'), **val) if 'value' in val else Param(**val)
                 obj[key] = val
             self.cfgobjs[cfgid] = obj
@@ -468,7 +554,11 @@ class World:
             return
         op = self.fam['mutations'][mid]['op']
         try:
-            self._apply(obj, op)
+            if op[0] == 'call':      # a driver / dispatcher level call on the instance ('') or on its companion module
+                target = obj if op[1] == '' else inst['companions'][op[1]]
+                getattr(target, op[2])(*op[3:])
+            else:
+                self._apply(obj, op)
             inst['mutout'].append('ok')
         except Exception as e:
             inst['mutout'].append(f'exc:{exc_name(e)}')
@@ -487,6 +577,8 @@ class World:
             self._descend(obj.parameters[op[1]].datatype, op[2]).setProperty(op[3], op[4])
         elif kind == 'cmdarg':
             self._descend(obj.commands[op[1]].argument, op[2]).setProperty(op[3], op[4])
+        elif kind == 'cmdopt':     # the optional members of a struct argument are assigned anew
+            obj.commands[op[1]].argument.optional = list(op[2])
         elif kind == 'cmdres':
             self._descend(obj.commands[op[1]].result, op[2]).setProperty(op[3], op[4])
         elif kind == 'enumgrow':    # literally what HasControlledBy.register_input does
@@ -536,8 +628,15 @@ class World:
         res = {'refused': inst['refused'] and [classify_error(t) for t in inst['refused']], 'mutout': inst['mutout']}
         if obj is None:
             return res
+        self._observe_module_pure(obj, inst['name'], res)
+        if inst['companions']:     # the modules created together with the instance (its own output module)
+            res['companions'] = {sfx: self._observe_module_pure(cobj, inst['name'] + sfx, {})
+                                 for sfx, cobj in inst['companions'].items()}
+        return res
+
+    def _observe_module_pure(self, obj, name, res):
         desc = safe(self.node.describe)
-        res['describe'] = desc['modules'].get(inst['name']) if isinstance(desc, dict) else desc
+        res['describe'] = desc['modules'].get(name) if isinstance(desc, dict) else desc
         res['modprops'] = safe(lambda: json.loads(json.dumps(obj.exportProperties(), default=repr)))
         # all module properties, also those which are not exported (pollinterval of a plain Module, ...)
         res['allprops'] = [[pn, safe(lambda pn=pn: repr(getattr(obj, pn)))] for pn in type(obj).propertyDict]
@@ -573,7 +672,12 @@ class World:
         obj = inst['obj']
         if obj is None:
             return None
-        name = inst['name']
+        out = self._observe_module_impure(obj, inst['name'])
+        for sfx, cobj in inst['companions'].items():
+            out['companion' + sfx] = self._observe_module_impure(cobj, inst['name'] + sfx)
+        return out
+
+    def _observe_module_impure(self, obj, name):
         out = {}
         for aname, aobj in obj.accessibles.items():
             ext = aobj.export
@@ -586,7 +690,7 @@ class World:
                     rows.append(self._req(f'change {name}:{ext} {json.dumps(x)}'))
                 rows.append(self._req(f'read {name}:{ext}'))
             else:
-                for x in CHANGE_PROBES[:8] + [None]:
+                for x in DO_PROBES:
                     rows.append(self._req(f'do {name}:{ext} {json.dumps(x)}' if x is not None else f'do {name}:{ext}'))
             out[aname] = rows
         out['drvlog'] = list(obj.__dict__.get('drvlog', []))
@@ -619,7 +723,12 @@ class World:
         for inst in self.insts:
             if inst['obj'] is not None:
                 res.append((f"instance:{inst['name']}", 'instance', dict(inst['obj'].accessibles), inst['obj'].propertyValues))
+            for sfx, cobj in inst['companions'].items():
+                res.append((f"instance:{inst['name']}{sfx}", 'instance', dict(cobj.accessibles), cobj.propertyValues))
         return res
+
+    def related(self, cida, cidb):
+        return cida in chain(self.fam, cidb) or cidb in chain(self.fam, cida)
 
     def alias_findings(self):
         """-> list of (kindA, kindB, typename, pathA, pathB, ownerA, ownerB); only the topmost shared object of a shared
@@ -627,9 +736,12 @@ class World:
         seen = {}     # id(obj) -> (owner label, owner kind, path, via id, obj)
         found = []
         reported = set()
+        self.latent = 0
+        vianame = {}  # (owner label, via id) -> name of the accessible
         for label, okind, acc, propvals in self.owners():
             mine = {}
             for aname, aobj in acc.items():
+                vianame[label, id(aobj)] = aname
                 walk(aobj, type(aobj).__name__, id(aobj), mine)
             if propvals is not None:
                 walk(propvals, 'module.propertyValues', 0, mine)
@@ -642,6 +754,13 @@ class World:
                 olabel, ookind, opath, ovia, _ = other
                 if okind == 'class' and ookind == 'class' and via == ovia and via:
                     continue      # the same inherited Accessible object (by design)
+                if okind == 'class' and ookind == 'class' and vianame.get((label, via)) == vianame.get((olabel, ovia)) \
+                        and self.related(label[6:], olabel[6:]):
+                    # a subclass's accessible refers to a datatype object of the SAME accessible of its base class (Command.merge
+                    # hands on argument / result without copying): a latent hazard, no violation as long as nothing changes
+                    # the object - a change shows in the differential observation of the base class
+                    self.latent += 1
+                    continue
                 shared[oid] = (olabel, ookind, opath, path, obj, parent)
             for oid, (olabel, ookind, opath, path, obj, parent) in shared.items():
                 if parent in shared and shared[parent][0] == olabel:
@@ -716,7 +835,11 @@ def alone_steps(family, ent):
     if ent[0] == 'class':
         return [['def', c] for c in chain(fam, ent[1])]
     _, cid, cfgid, muts = ent
-    return [['def', c] for c in chain(fam, cid)] + [['new', cid, cfgid]] + [['mut', 0, m] for m in muts]
+    need = set(chain(fam, cid))
+    out = fam['configs'][cfgid].get('+output')
+    if out:      # the class chain of the module created together with the instance belongs to its own history
+        need |= set(chain(fam, out['cls']))
+    return [['def', c] for c in fam['classes'] if c in need] + [['new', cid, cfgid]] + [['mut', 0, m] for m in muts]
 
 
 def alone_observe(family, ent):
@@ -956,6 +1079,8 @@ def evaluate(family, steps, part, ref, parent=None):
             obs[('class', cid)] = canon(world.observe_class(cid))
         pure = [world.observe_inst_pure(k) for k in range(len(world.insts))]
         aliases = world.alias_findings()
+        if world.latent:
+            part.outcomes['alias:latent(datatype of the same accessible shared by class and subclass)'] += 1
         impure = [world.observe_inst_impure(k) for k in range(len(world.insts))]
         for k, inst in enumerate(world.insts):
             ent = ('inst', k)
@@ -1068,8 +1193,10 @@ def successors(family, view, steps, state, ref):
     if len(insts) < MAX_INSTANCES:
         for cid in instantiable(family, view):
             if cid in defined:
+                allowed = fam.get('configs_for', {}).get(cid)
                 for cfgid in cfgids:
-                    yield ['new', cid, cfgid]
+                    if allowed is None or cfgid in allowed:
+                        yield ['new', cid, cfgid]
     for k, (cid, cfgid, names) in enumerate(insts):
         for mid in mids:
             if names is not None and all(n in names for n in fam['mutations'][mid]['needs']):
@@ -1189,7 +1316,7 @@ def run(ctx):
                 'requests executed; traces = entity observations compared with the reference' % (MAX_INSTANCES, json.dumps(menus)))
     ctx.coverage.update(bound_completed='; '.join(f'{f}: ' + ', '.join(f'{v} menus to {d} steps' for v, d, _m in pl[f]) for f in FAMILIES),
                         families={f: {'classes': list(FAMILIES[f]['classes']), 'prelude': FAMILIES[f]['prelude']} for f in FAMILIES})
-    ctx.assume('class menus, configurations and mutations outside the five families are not covered; classes of different families '
+    ctx.assume('class menus, configurations and mutations outside the seven families are not covered; classes of different families '
                'are never combined in one program',
                'prelude classes of the mixin family are defined in a fixed order before the first step',
                'the reference ("alone") build runs in a child forked from a process that imported frappy but never defined a menu class')
